@@ -155,7 +155,7 @@ func (s *System) buildJustification(inst uint64, js jspec) (*gpbft.Justification
 		sigs[n] = byIdx[k]
 		u[n] = uint64(k)
 	}
-	agg, err := s.backend.Aggregate(pt.Entries.PublicKeys())
+	agg, err := s.aggregate(pt.Entries.PublicKeys())
 	if err != nil {
 		return nil, err
 	}
